@@ -16,12 +16,12 @@ RULE = ('case = canonical selection spec; its derivation state graph is explored
 ASSUMPTIONS = ['reference closure semantics from docs/theory.md (vf/refmodel.py)',
                'states are merged only if graph (nodes, typed edges) and assignment made so far are identical']
 CHUNK = 100
-REQUIRED_FEATURES = {'*': ['multi_order', 'multi_leaf', 'infeasible_leaf', 'auto_resolved', 'shared_option', 'cycle']}
+REQUIRED_FEATURES = {'*': ['multi_order', 'multi_leaf', 'infeasible_leaf', 'auto_resolved', 'shared_option', 'cycle', 'staged_build']}
 MAX_STATES = 5000
 
 
 def scope_text(tier):
-    return ('SEL-q' if tier == 'quick' else 'SEL-t') + ' (vf/enumerate.py SCOPES) + CYC family (all edge subsets among 3 nodes x entry choices) + DIAMOND family (reconverging branches of length 1-3): all canonical specs, all choice orders, all options'
+    return ('SEL-q' if tier == 'quick' else 'SEL-t') + ' (vf/enumerate.py SCOPES) + CYC family (all edge subsets among 3 nodes x entry choices) + DIAMOND family (reconverging branches of length 1-3) + UNR, INC, INC-2 families + staged build histories (one derivation edge added in place to the initialised graph, initialised again) for DIAMOND and INC: all canonical specs, all choice orders, all options'
 
 
 def cases(tier, seed):
@@ -38,6 +38,11 @@ def cases(tier, seed):
         yield dict(spec=spec)
     for spec in families.diamond(tier):  # reconverging derivation branches below an option
         yield dict(spec=spec)
+    # build history: one derivation edge is added IN PLACE to the initialised graph object, which is initialised again
+    for fam in (families.diamond, families.inc):
+        for spec in fam(tier):
+            for e in spec['edges']:
+                yield dict(spec=spec, staged=[list(e)])
 
 
 def partial_closure(spec, assign):
@@ -205,7 +210,8 @@ def run_case(case):
     feats = res['features']
 
     def viol(kind, detail):
-        res['violations'].append(dict(kind=kind, case=dict(spec=spec), detail=detail))
+        c = dict(spec=spec, staged=case['staged']) if case.get('staged') else dict(spec=spec)
+        res['violations'].append(dict(kind=kind, case=c, detail=detail))
 
     opts_all = [x for _, _, opts in spec.get('choices', []) for x in opts]
     if len(set(opts_all)) < len(opts_all):
@@ -213,7 +219,13 @@ def run_case(case):
     if has_cycle(spec):
         feats['cycle'] = 1
     try:
-        b = vbuild.build(spec)
+        b = vbuild.build(spec, staged_edges=case.get('staged'))
+        if case.get('staged'):
+            if not b.staged:
+                res['sample'] = dict(spec=spec, staged=case['staged'], skipped='first initialisation removes / resolves something')
+                return res
+            feats['staged_build'] = 1
+            res['key'] = res['key'] + ':staged:' + repr(case['staged'])
     except Exception as e:
         viol('build-raised', dict(exc=(type(e).__name__, str(e)[:200])))
         return res
